@@ -272,7 +272,10 @@ class World:
         """Strategy actions are issued from handlers, i.e. after at least one bar (so that now() exists); cancel/repay
         of an index that does not exist yet would only duplicate the 'unknown id' action."""
         if a[0] != "bar" and self.t == 0:
-            return False
+            # the documented exception: orders (not loans) may be placed before the first event; there is no "now" yet,
+            # hence no acceptance event, and a market buy cannot estimate what to reserve
+            if not (self.cfg.get("pre_bar") and a[0] in ("ord", "cancel")):
+                return False
         if a[0] == "cancel" and a[1] >= len(self.ids):
             return False
         if a[0] == "repay" and a[1] >= len(self.lids):
